@@ -87,6 +87,12 @@ def newUnpackInfo (fs : FS) (dst : Str) (e : Entry) : Option Str :=
       else if !(e.isDir || e.isSymlink || e.isRegular || e.isTypeX) then none
       else some path
 
+/-- `allowedSymlinkTarget(absRoot, absTarget)`: the target is an allow-listed one or lies below one -/
+def allowedTarget (allow : List Str) (absRoot absTarget : Str) : Bool :=
+  allow.any fun prefix0 =>
+    let pre := if isAbs prefix0 then prefix0 else pathJoin absRoot prefix0
+    absTarget = pre || hasPrefix absTarget (if hasSuffix pre ['/'] then pre else pre ++ ['/'])
+
 /-- `validSymlink(root, path, target)` with allow-list `allow`; the working directory only
 matters for a relative root, `cwd` is passed for completeness. -/
 def validSymlink (cwd : Str) (allow : List Str) (root path target : Str) : Bool :=
@@ -94,10 +100,13 @@ def validSymlink (cwd : Str) (allow : List Str) (root path target : Str) : Bool 
   let absPath := if isAbs path then path else pathJoin absRoot path
   let absTarget := if isAbs target then pathClean target else pathJoin (pathDir absPath) target
   if isWithin absRoot absTarget then true
-  else
-    allow.any fun prefix0 =>
-      let pre := if isAbs prefix0 then prefix0 else pathJoin absRoot prefix0
-      absTarget = pre || hasPrefix absTarget (if hasSuffix pre ['/'] then pre else pre ++ ['/'])
+  else allowedTarget allow absRoot absTarget
+
+/-- the test `Unpack` applies to a link entry: `validSymlink`, and an absolute target only when
+the caller allow-listed it (not because it happens to point into `dst`) -/
+def unpackLinkOK (cwd : Str) (allow : List Str) (dst linkName target : Str) : Bool :=
+  validSymlink cwd allow dst linkName target &&
+    (!isAbs target || allowedTarget allow (pathAbs cwd dst) (pathClean target))
 
 structure UState where
   fs : FS
@@ -127,7 +136,7 @@ def unpackEntry (cwd : Str) (allow : List Str) (privileged : Bool) (dst : Str) (
           match pathRel dst path with
           | none => (st1, some .illegal)
           | some linkName =>
-            if !validSymlink cwd allow dst linkName e.link then (st1, some .illegal)
+            if !unpackLinkOK cwd allow dst linkName e.link then (st1, some .illegal)
             else
               match fs1.symlink e.link path nowT with
               | .error _ => (st1, some .ioerr)
